@@ -129,10 +129,16 @@ def h_rotate(cname, uname, sub):
         # origin of the intermediate cell to (0,0,0), so the faces are those of the lattice U.V through the Cartesian origin
         newV = U.dot(V); inv_new = np.linalg.inv(newV)
         if sx.symbolic_mode():
+            # ... for EVERY lattice image of the symbolic atom: the |det| images inside the new cell differ by the cosets
+            # n.U^-1 mod 1 of the original lattice in the new one
+            Uinv = np.linalg.inv(U.astype(float))
+            offs = sorted({tuple(np.round((np.array(n_).dot(Uinv)) % 1.0, 9) % 1.0) for n_ in itertools.product(range(-3, 4), repeat=3)})
             for c in range(3):
                 snew = sum(P[0][j] * float(inv_new[j, c]) for j in range(3))
-                fr = snew - snew.floor() if sx.is_sym(snew) else snew - math.floor(snew)
-                assume(fr >= 0.001); assume(fr <= 0.999)
+                for o_ in sorted({o[c] for o in offs}):
+                    t_ = snew + float(o_)
+                    fr = t_ - t_.floor() if sx.is_sym(t_) else t_ - math.floor(t_)
+                    assume(fr >= 0.001); assume(fr <= 0.999)
         new, T = s.rotate(U, return_transform=True)
         T = np.asarray(T, dtype=float)
         nb = new.box; nV = np.asarray(nb.vects, dtype=float); nO = np.asarray(nb.origin, dtype=float)
@@ -163,6 +169,7 @@ def h_rotate(cname, uname, sub):
         pos = new.atoms.pos
         for a in range(new.natoms):
             for b in range(a + 1, new.natoms):
+                if int(new.atoms.atype[a]) != int(new.atoms.atype[b]): continue      # copies of the SAME original atom must be distinct (the two input atoms may be arbitrarily close)
                 dd = sum((pos[a, j] - pos[b, j]) * (pos[a, j] - pos[b, j]) for j in range(3))
                 ob.append((f'result atoms {a},{b} distinct', (dd >= 1e-6) if sx.is_sym(dd) else dd >= 1e-6))
         ob.append(('input untouched', band(alleq(s.atoms.pos, P), np.allclose(np.asarray(s.box.vects, dtype=float), V))))
@@ -180,6 +187,16 @@ def h_rotate_refuse():
                 s.rotate(np.array(U)); ob.append((nm + ' refused', False))
             except ValueError:
                 ob.append((nm + ' refused', True))
+        # atoms whose images lie 1e-5 .. 1.1e-4 from faces of the new cell (once lost by the tolerance ladder)
+        for cn, un, S0 in (('ortho_origin', 'det3', [0.1323232333333331, 0.12109989999999973, 0.4332132333333333]), ('triclinic', 'det4', [0.52, 0.90209, 0.1498898])):
+            cell = CELLS[cn]; Uv = np.array(UVWS[un]); V = np.array(cell['vects'], float); O = np.array(cell['origin'], float)
+            Pp = [[O[j] + sum(S[i] * V[i, j] for i in range(3)) for j in range(3)] for S in (S0, [0.31, 0.57, 0.83])]
+            s2 = am.System(atoms=am.Atoms(pos=np.array(Pp), atype=[1, 2]), box=am.Box(vects=V, origin=O), symbols=['Al', 'Cu'])
+            try:
+                n2 = s2.rotate(Uv); okr = n2.natoms == 2 * int(round(abs(np.linalg.det(Uv)))) and np.bincount(n2.atoms.atype).tolist()[1:] == [n2.natoms // 2] * 2
+            except ValueError as e:
+                okr = False
+            ob.append((f'{cn} cell, uvws {un}: an atom with images 1e-5 and 1.1e-4 from faces of the new cell is neither lost nor duplicated', bool(okr)))
         same = s.rotate(np.eye(3, dtype=int))
         ob.append(('identity matrix returns the same crystal', same.natoms == 1 and np.allclose(same.atoms.pos, s.atoms.pos) and np.allclose(same.box.vects, s.box.vects)))
         return ob
